@@ -1045,6 +1045,10 @@ def run(tier):
         'a segment without elements is shown with one element separator (the canonical form of Segment.format); accepted',
         'error codes are pyx12 literals (alphanumeric); loop information lines come from the map, not from the input',
     ]
+    if built:
+        # sinks end to end: the XML (byte for byte) and HTML of the real x12n_document against Model/DocSinks.lean
+        from . import doc as docmod, docsinks
+        docsinks.attach(res, [t for _, t in docmod.small_corpus(common.seed() * 3 + 19, 60 if tier == 'thorough' else 24)], 'c19-sample')
     return res.finish(trusted=common.TRUSTED_COMMON + [
         'modelled: escape_html_chars, error_html.gen_seg/_seg_str/seg_str/_wrap_ele_error/gen_info, header/footer frame, the per-segment '
         'loop of x12n_document (fd_html branch), err_iter + the drain loop + get_error_list + the message order of gen_seg/footer '
